@@ -73,11 +73,23 @@ func init() {
 		return r
 	}
 	checks["C09"] = &propCheck{
-		ID: "C09", Quick: append(valid(2, 1), hrun{Harness: "vhC09GC", Params: P("AUTO", 0, "SIZES", 3, "TOPICS", 1), Covers: []string{"C09/GC/collected-something"}}), Thorough: valid(3, 1),
+		ID: "C09", Quick: append(valid(2, 1), hrun{Harness: "vhC09GC", Params: P("AUTO", 0, "SIZES", 3, "TOPICS", 1), Covers: []string{"C09/GC/collected-something"}},
+			// through the public API only, from the initial state: histories of 5 operations with symbolic clock advances
+			hrun{Harness: "vhC09History", Params: P("K", 5, "AUTO", 0), Covers: []string{"C09/History/replayed"}},
+			hrun{Harness: "vhC09History", Params: P("K", 5, "AUTO", 1), Covers: []string{"C09/History/replayed"}}),
+		Thorough: []hrun{
+			{Harness: "vhC09GC", Params: P("AUTO", 0, "SIZES", 3, "TOPICS", 1), Covers: []string{"C09/GC/collected-something"}},
+			{Harness: "vhC09GC", Params: P("AUTO", 1, "SIZES", 3, "TOPICS", 1), Covers: []string{"C09/GC/collected-something"}},
+			{Harness: "vhC09Put", Params: P("AUTO", 0, "SIZES", 3, "TOPICS", 1), Covers: []string{"C09/Put/collects", "C09/Put/grow-or-first"}},
+			{Harness: "vhC09Put", Params: P("AUTO", 1, "SIZES", 3, "TOPICS", 1), Covers: []string{"C09/Put/collects", "C09/Put/grow-or-first"}},
+			{Harness: "vhC09Replay", Params: P("AUTO", 0, "SIZES", 3, "TOPICS", 1, "MAXCOUNT", 3), Covers: []string{"C09/Replay/newest-id", "C09/Replay/something-replayed"}},
+			{Harness: "vhC09Replay", Params: P("AUTO", 1, "SIZES", 3, "TOPICS", 1, "MAXCOUNT", 3), Covers: []string{"C09/Replay/newest-id", "C09/Replay/something-replayed"}},
+			{Harness: "vhC09GC", Params: P("AUTO", 0, "SIZES", 2, "TOPICS", 2), Covers: []string{"C09/GC/collected-something"}},
+		},
 		Labels: []string{"C09/"},
 		Bounds: map[string]string{
 			"quick":    "buffer length in {0,4}; every (count, head); TTL in [1, 2^40] ns, GCInterval in [-1, 2^41] ns, clock value and lastGC arbitrary 64-bit instants (now < 2^60, lastGC <= now or never); expiries arbitrary non-decreasing 64-bit instants <= now+TTL; one op of Put / Replay / GC with symbolic arguments; both ID modes. By induction: histories of any length within these buffer lengths (grow 0->4->8 occurs as a single Put).",
-			"thorough": "buffer length in {0,4,8} (grow 4->8->16 and shrink 8->4 occur as single operations); otherwise as quick",
+			"thorough": "quick plus: buffer length in {0,4,8} (grow 4->8->16 and shrink 8->4 occur as single operations) for Put and GC; Replay from buffers of length 8 holding <=3 events; 2 topics per event for GC",
 		},
 		Outside: []string{"a clock that goes backwards", "saturation of time.Time.Sub / instants beyond 2^60 ns", "buffer lengths above the bound"},
 		Oracle:  "abstract list with expiries: GC drops exactly the expired prefix; Put (after an optional collection exactly when GCInterval>0 and now-lastGC>=GCInterval) appends with expiry now+TTL and drops no unexpired entry; Replay sends exactly the later entries with exp>now whose topics intersect, never an expired one",
@@ -91,11 +103,12 @@ func init() {
 			// ... and a Replay at the current clock value, when a prefix may already have expired
 			hrun{Harness: "vhC09GC", Params: P("AUTO", 0, "SIZES", 2, "TOPICS", 1, "PREREPLAY", 2, "MAXCOUNT", 2)},
 			// through the public constructor, capacities 2..17 (also beyond any internal initial size): N+3 Puts
-			hrun{Harness: "vhC18FiniteHistory", Covers: []string{"C18/FiniteHistory/ran"}}),
+			hrun{Harness: "vhC18FiniteHistory", Covers: []string{"C18/FiniteHistory/ran"}},
+			hrun{Harness: "vhC09History", Params: P("K", 5, "AUTO", 0), Covers: []string{"C09/History/replayed"}}),
 		Thorough: append(append(each(P("CAP", 5, "AUTO", 0, "TOPICS", 1), "vhC08Put"), append(each(P("AUTO", 0, "SIZES", 4, "TOPICS", 1), "vhC09GC", "vhC09Put"), each(P("AUTO", 1, "SIZES", 4, "TOPICS", 1), "vhC09GC", "vhC09Put")...)...),
 			hrun{Harness: "vhC09GC", Params: P("AUTO", 0, "SIZES", 2, "TOPICS", 1, "PREREPLAY", 1)},
 			hrun{Harness: "vhC09Put", Params: P("AUTO", 1, "SIZES", 2, "TOPICS", 1, "PREREPLAY", 1)}),
-		Labels: []string{"C18/", "inv-dead-slots-are-zero", "holds-exactly-last-N", "drops-exactly-the-expired-prefix", "inv-", "gc-interval-not-restarted", "collection-time-recorded", "appends-and-drops-no-unexpired"},
+		Labels: []string{"C18/", "C09/History/", "inv-dead-slots-are-zero", "holds-exactly-last-N", "drops-exactly-the-expired-prefix", "inv-", "gc-interval-not-restarted", "collection-time-recorded", "appends-and-drops-no-unexpired"},
 		Bounds: map[string]string{
 			"quick":    "FiniteReplayer capacity 2-3, ValidReplayer buffer length in {0,4,8}: one Put/GC from every ring state; reachability decided on the executor's explicit heap (slices keep their whole backing array alive)",
 			"thorough": "FiniteReplayer capacity 5, ValidReplayer buffer length in {0,4,8,16} (all grow and shrink steps)",
@@ -330,7 +343,6 @@ func init() {
 			{Harness: "vhC01SmallBufConn", Params: P("L", 16)},
 		},
 		Thorough: []hrun{
-			{Harness: "vhC10Connect", Params: P("A", 4, "CANCEL", 0, "BODYKINDS", 1, "TPLMASK", 39), Covers: []string{"C10/Connect/header-sent"}},
 			{Harness: "vhC10Connect", Params: P("A", 3, "CANCEL", 1, "BODYKINDS", 1, "TPLMASK", 7), Covers: []string{"C10/Connect/header-sent"}, NoNative: true},
 			{Harness: "vhC10Connect", Params: P("A", 4, "CANCEL", 0, "BODYKINDS", 5, "TPLMASK", 3), Covers: []string{"C10/Connect/getbody-failed"}},
 			{Harness: "vhC10Reconnect", Params: P("A", 3, "CANCEL", 0, "BODYKINDS", 5, "TPLMASK", 39), Covers: []string{"C10/Connect/header-sent", "C10/Connect/getbody-failed"}},
@@ -338,7 +350,7 @@ func init() {
 		Labels: []string{"C10/", "C01/SmallBufConn", "C11/Connect/never-returns-nil", "panic:"},
 		Bounds: map[string]string{
 			"quick":    "the real Connect loop against a scripted transport: scripts of <=3 attempts, each a transport failure, a rejected response, or a 200 response streaming one of 4 templates (data only; id:<symbolic byte>; id:<symbolic byte> cut before its blank line; id:7 then an empty id) ending cleanly or with a read error; MaxRetries in {-1,1,2}; request-body kinds {none, NoBody, with GetBody, without GetBody, GetBody failing at its 1st or 2nd call}",
-			"thorough": "scripts of <=4 attempts; cancellation at every point added for <=3 attempts",
+			"thorough": "quick plus: cancellation at every point for scripts of <=3 attempts; scripts of <=4 attempts over the 5 request-body kinds with the data-only and id templates; Connect called 3 times on one Connection",
 		},
 		Outside: []string{"real transports and the real http.Client.Do (stub: Transport.RoundTrip, failures wrapped in *url.Error)", "requests that already carry a Last-Event-ID header", "timers fire as soon as they are armed"},
 		Oracle:  "header at attempt a = LastEventID of the last event the WHATWG oracle dispatches over all earlier streams (an id in an event cut before its blank line counts only if the body ended cleanly; NUL ids ignored), absent when empty; a body is re-obtained through GetBody for every retry, ErrNoGetBody / GetBody's error ends Connect without a further request",
@@ -536,7 +548,7 @@ func init() {
 			{Harness: "vhC08Replay", Params: P("CAP", 3, "AUTO", 0, "TOPICS", 1)},
 			{Harness: "vhC08Replay", Params: P("CAP", 4, "AUTO", 1, "TOPICS", 1)},
 			{Harness: "vhC09Put", Params: P("AUTO", 1, "SIZES", 2, "TOPICS", 1)},
-			{Harness: "vhC09Replay", Params: P("AUTO", 1, "SIZES", 3, "TOPICS", 1)},
+			{Harness: "vhC09Replay", Params: P("AUTO", 1, "SIZES", 3, "TOPICS", 1, "MAXCOUNT", 3)},
 		},
 		Labels: []string{"C04/", "C08/", "C09/", "panic:"},
 		Bounds: map[string]string{
@@ -567,7 +579,7 @@ func init() {
 		},
 		Thorough: []hrun{
 			{Harness: "vhC05", Params: P("MSGS", 2, "ATTEMPTS", 2, "AUTO", 0, "N", 2), Covers: []string{"C05/all-received"}},
-			{Harness: "vhC05", Params: P("MSGS", 3, "ATTEMPTS", 2, "AUTO", 1, "N", 1), Covers: []string{"C05/all-received"}},
+			{Harness: "vhC05", Params: P("MSGS", 3, "ATTEMPTS", 2, "AUTO", 1, "N", 0, "NOTYPE", 1), Covers: []string{"C05/all-received"}},
 			{Harness: "vhC05", Params: P("MSGS", 2, "ATTEMPTS", 3, "AUTO", 1, "N", 0), Covers: []string{"C05/all-received"}},
 			{Harness: "vhC05", Params: P("MSGS", 2, "ATTEMPTS", 2, "AUTO", 1, "N", 1, "VALID", 1), Covers: []string{"C05/all-received"}},
 			{Harness: "vhC05", Params: P("MSGS", 2, "ATTEMPTS", 2, "AUTO", 1, "N", 0, "SPLIT", 1), Covers: []string{"C05/all-received"}},
@@ -575,7 +587,7 @@ func init() {
 		Labels: []string{"C05/", "C06/", "C17/", "C09/", "panic:"},
 		Bounds: map[string]string{
 			"quick":    "2 messages (symbolic data <=1 byte incl. line breaks, optional symbolic type <=1 byte), every placement of their publication on the timeline {client away, while attempt 1 is connected, away, while attempt 2 is connected}, 2 connection attempts, the first cut at EVERY byte offset of the response body abruptly (read error) or, at message boundaries, by the handler returning; FiniteReplayer with automatic and manual IDs and ValidReplayer with manual IDs, capacity >= number of messages",
-			"thorough": "data <=2 bytes; 3 messages; 3 attempts (2 cuts)",
+			"thorough": "quick plus: data <=2 bytes with manual IDs; 3 messages (fixed data); 3 attempts (2 cuts); ValidReplayer with automatic IDs; split reads with optional types",
 		},
 		Outside: []string{"net/http client and server, TCP, chunked framing (trusted to deliver a prefix of the handler's bytes followed by an error or a clean end)", "Joe's goroutines: replaced by 'replay then register is atomic, live delivery is exactly once in Put order', which C03/C04 decide", "cuts inside the response headers (the body is cut at every offset from 0)", "'the server process survives' is C06's no-crash clause"},
 		Oracle:  "the callback log from the first received event on equals the published list from that event on: each once, in order, with the published ID, type and LF-joined data",
